@@ -237,6 +237,75 @@ class _Renamer(ast.NodeTransformer):
     visit_ListComp = visit_SetComp = visit_DictComp = visit_GeneratorExp = _comp
 
 
+def _expr_body(fn):
+    """The expression of a helper that is just `return <expr>` (after an optional docstring), if it is safe to substitute
+    it textually: no scopes of its own, no walrus / await / yield."""
+    body = list(fn.body)
+    if body and isinstance(body[0], ast.Expr) and isinstance(body[0].value, ast.Constant) and isinstance(body[0].value.value, str):
+        body = body[1:]
+    if len(body) != 1 or not isinstance(body[0], ast.Return) or body[0].value is None:
+        return None
+    e = body[0].value
+    if _has(e, (ast.Lambda, ast.ListComp, ast.SetComp, ast.DictComp, ast.GeneratorExp, ast.NamedExpr, ast.Await, ast.Yield, ast.YieldFrom)):
+        return None
+    return e
+
+
+class _ExprSubst(ast.NodeTransformer):
+    """Replace `helper(a, b)` by the helper's return expression with the parameters replaced by the (pure) arguments."""
+
+    def __init__(self, inl: "_Inliner", owner_cls):
+        self.inl = inl
+        self.owner_cls = owner_cls
+        self.n = 0
+
+    def visit_Call(self, node):
+        self.generic_visit(node)
+        r = self.inl._helper_of(node, self.owner_cls, False, False)
+        if r is None:
+            return node
+        h, bound_self = r
+        e = _expr_body(h.node)
+        if e is None:
+            return node
+        if not all(_pure(a) for a in node.args) or not all(_pure(k.value) for k in node.keywords):
+            return node
+        a = h.node.args
+        params = [x.arg for x in a.posonlyargs + a.args]
+        defaults = [None] * (len(params) - len(a.defaults)) + list(a.defaults)
+        mapping = {}
+        args = list(node.args)
+        kw = {k.arg: k.value for k in node.keywords}
+        pos = 0
+        for i, p in enumerate(params):
+            if i == 0 and bound_self is not None:
+                mapping[p] = ast.Name(id=bound_self, ctx=ast.Load())
+            elif pos < len(args):
+                mapping[p] = args[pos]
+                pos += 1
+            elif p in kw:
+                mapping[p] = kw.pop(p)
+            elif defaults[i] is not None and _pure(defaults[i]):
+                mapping[p] = defaults[i]
+            else:
+                return node
+        if pos < len(args) or kw or a.kwonlyargs:
+            return node
+
+        class _P(ast.NodeTransformer):
+            def visit_Name(self, n):
+                if n.id in mapping and isinstance(n.ctx, ast.Load):
+                    return ast.copy_location(copy.deepcopy(mapping[n.id]), n)
+                return n
+
+        out = _P().visit(copy.deepcopy(e))
+        ast.copy_location(out, node)
+        ast.fix_missing_locations(out)
+        h.inlined += 1
+        self.n += 1
+        return out
+
+
 class _Inliner:
     def __init__(self, tree: ast.Module, helpers: dict, counter):
         self.tree = tree
@@ -454,9 +523,17 @@ class _Inliner:
             if isinstance(st, ast.Try) or (hasattr(ast, "TryStar") and isinstance(st, getattr(ast, "TryStar"))):
                 for hd in st.handlers:
                     hd.body = self._body(hd.body, owner_cls, self_name)
-            if self_name == "<helper-self>":
-                out.append(st)
-                continue
+            # helpers that are a single returned expression are substituted in place (so a boolean helper used in a test is
+            # decomposed into its own tests by the CFG); only into the statement's own expressions, not into nested blocks
+            sub = _ExprSubst(self, owner_cls)
+            for fld, val in list(ast.iter_fields(st)):
+                if fld in ("body", "orelse", "finalbody", "handlers", "cases"):
+                    continue
+                if isinstance(val, ast.AST):
+                    setattr(st, fld, sub.visit(val))
+                elif isinstance(val, list):
+                    setattr(st, fld, [sub.visit(v) if isinstance(v, ast.AST) else v for v in val])
+            self.done += sub.n
             rep = self._try_stmt(st, owner_cls)
             if rep is None:
                 out.append(st)
